@@ -385,6 +385,61 @@ fn shapes_did_not_fit(rep: &mut Report, panic: &str, id: &str, case: &Value) {
     }
 }
 
+/// C11 in TRAINING mode: a block without skips whose layers carry dropout is still the L-fold application of its layer
+/// sequence -- every repetition is the same layer in the same mode (the dropout mask is a fixed function of the element
+/// count, so the composition is well defined).  Only for networks that start with the block.
+fn training_mode_repetition(case: &Value, layers: &[Value], x: &Tensor, rep: &mut Report, id: &str) {
+    let first = &layers[0];
+    if str_of(first, "kind") != "fb" || bool_of(first, "inskips") || bool_of(first, "outskips") || usize_of(first, "loops") < 2 {
+        return;
+    }
+    let loops = usize_of(first, "loops");
+    let build = |l: usize| -> Result<Network, String> {
+        guarded(|| {
+            let mut net = Network::new(shape_from(&case["input"]));
+            for (k, spec) in layers.iter().enumerate() {
+                let mut d = flow_layer_desc(spec);
+                if k == 0 {
+                    d["loops"] = json!(l);
+                    for inner in d["layers"].as_array_mut().unwrap().iter_mut() {
+                        if inner["kind"] != "pool" {
+                            inner["dropout"] = json!(0.5);
+                        }
+                    }
+                }
+                nets::add_layer(&mut net, &d);
+            }
+            install_flow_params(&mut net, layers);
+            net
+        })
+    };
+    let (mut full, mut single) = match (build(loops), build(1)) {
+        (Ok(a), Ok(b)) => (a, b),
+        _ => return,
+    };
+    rep.checks += 1;
+    let res = guarded(|| {
+        let (bl, b1) = match (&mut full.layers[0], &mut single.layers[0]) {
+            (neurons::network::Layer::Feedback(a), neurons::network::Layer::Feedback(b)) => (a, b),
+            _ => panic!("harness: not a block"),
+        };
+        bl.training(true);
+        b1.training(true);
+        let y = bl.forward(x).1;
+        let mut z = x.clone();
+        for _ in 0..loops {
+            z = b1.forward(&z).1;
+        }
+        (flat(&y), flat(&z))
+    });
+    if let Ok((y, z)) = res {
+        rep.count("training_mode_repetition_checks", 1);
+        if y.len() != z.len() || y.iter().zip(z.iter()).any(|(a, b)| a.to_bits() != b.to_bits()) {
+            rep.mismatch("C11", "training_mode_block_is_not_the_repeated_layer_sequence", id, json!({"loops": loops, "block": y, "composition": z}), case);
+        }
+    }
+}
+
 pub fn replay_flow(case: &Value, rep: &mut Report) {
     let mode = str_of(case, "mode");
     let prop = match mode {
@@ -468,12 +523,25 @@ pub fn replay_flow(case: &Value, rep: &mut Report) {
             }
             _ => (),
         }
+        // between two connect calls the network is USED (a forward and a backward pass): the connections made afterwards
+        // count all the same -- the evaluations below know nothing of this intermezzo
+        if mode == "skip" && i + 1 < case["steps"].as_array().unwrap().len() {
+            if let Some(ev) = case["evals"].as_array().and_then(|a| a.first()) {
+                let (x0, g0) = (spec_value_tensor(&ev["x"]), spec_value_tensor(&ev["g"]));
+                let _ = guarded(|| {
+                    let (pre, post, max, fbs) = net.forward(&x0);
+                    net.verif_backward(g0, &pre, &post, &max, fbs)
+                });
+                rep.count("backward_passes_between_connect_calls", 1);
+            }
+        }
     }
     // ---- evaluations ----
     for eval in case["evals"].as_array().unwrap() {
         let x = spec_value_tensor(&eval["x"]);
         match mode {
             "fb" => {
+                training_mode_repetition(case, &layers, &x, rep, &id);
                 rep.checks += 1;
                 // the network-level accumulations (for skip and loop connections) are set to something ELSE than the block's
                 // own accumulation: a block keeps the accumulation it was created with
